@@ -14,6 +14,7 @@ of the property statement on that ledger.  It never calls Retry methods.
 """
 from __future__ import annotations
 
+import errno
 import http.client
 import itertools
 import socket
@@ -39,6 +40,8 @@ SYMS = {
     "cto": ("connect", "connect"),    # dial times out
     "rto": ("read", "request"),       # request received, no answer: read timeout
     "rst": ("read", "request"),       # request received, ECONNRESET while reading the status line
+    "unr": ("read", "request"),       # request received, then a socket error that is NOT a ConnectionError subclass
+                                      # (EHOSTUNREACH) while reading the status line
     "eof": ("read", "request"),       # request received, orderly EOF instead of a response
     "bad": ("read", "request"),       # request received, garbage status line
     "bto": ("read", "request"),       # 200 + Connection: close + Content-Length received, then the body stalls
@@ -52,7 +55,7 @@ SYMS = {
 RA_SECONDS = 7
 RA_DATE_AHEAD = 9
 STATUS_OF = {"500": 500, "503ra": 503, "429d": 429, "418ra": 418}
-FAULT_NAME = {"bto": "recv-body-timeout", "rto": "recv-timeout", "rst": "recv-reset", "eof": "recv-eof", "bad": "recv-garbage",
+FAULT_NAME = {"bto": "recv-body-timeout", "rto": "recv-timeout", "rst": "recv-reset", "unr": "recv-unreachable", "eof": "recv-eof", "bad": "recv-garbage",
               "oth": "recv-tls-error", "tls": "handshake-error", "cref": "connect-refused",
               "cto": "connect-timeout"}
 RETRY_AFTER_STATUSES = (413, 429, 503)  # from the property statement
@@ -152,6 +155,10 @@ class ScriptServer(Server):
             return [e]
         if s == "rst":
             e = ConnectionResetError(104, "Connection reset by peer")
+            self.injected[k] = e
+            return [e]
+        if s == "unr":
+            e = OSError(errno.EHOSTUNREACH, "No route to host")
             self.injected[k] = e
             return [e]
         if s == "eof":
@@ -760,11 +767,11 @@ def _count(acc, task, case, V, outcome, info):
 
 
 # ------------------------------------------------------------------ the enumerated space
-FULL = ["cref", "cto", "rto", "rst", "eof", "bad", "bto", "oth", "tls", "500", "503ra", "429d", "418ra"]
+FULL = ["cref", "cto", "rto", "rst", "unr", "eof", "bad", "bto", "oth", "tls", "500", "503ra", "429d", "418ra"]
 CORE = ["cref", "rto", "rst", "500", "oth"]          # one symbol per category (+ both read kinds that are
 #                                                       classified by different code paths)
 SLEEPY = ["cref", "rst", "500", "503ra", "429d", "418ra"]
-XALPHA = ["cref", "rto", "rst", "eof", "bto", "oth", "tls", "500", "503ra", "429d"]
+XALPHA = ["cref", "rto", "rst", "unr", "eof", "bto", "oth", "tls", "500", "503ra", "429d"]
 TOTALS = (False, 0, 1, 2, None)
 BUDGET = (None, 0, 1)
 GATES_ALL = [(m, a) for a in ("default", "all", "post") for m in ("GET", "POST", "PUT", "post")]
